@@ -102,6 +102,22 @@ static int c_cue_size (H *h, int *e, char *w) { static SF_CUES cu ; int r ; mems
 static int c_chmap_size (H *h, int *e, char *w) { int cm [8] = { SF_CHANNEL_MAP_LEFT, SF_CHANNEL_MAP_RIGHT, SF_CHANNEL_MAP_CENTER, SF_CHANNEL_MAP_LFE, 1, 1, 1, 1 }, r = sf_command (h->s, SFC_SET_CHANNEL_MAP_INFO, cm, (int) sizeof (int) * (h->ch + 1)) ; *e = EXP_FAIL_Q ; snprintf (w, 100, "SFC_SET_CHANNEL_MAP_INFO with ch+1 entries returned %d", r) ; return r == SF_FALSE ; }
 static int c_chmap_value (H *h, int *e, char *w) { int cm [8] = { SF_CHANNEL_MAP_LEFT, SF_CHANNEL_MAP_MAX + 5, SF_CHANNEL_MAP_MAX + 5, 1, 1, 1, 1, 1 }, r ; if (h->ch < 2) { *e = EXP_NEUTRAL ; return 1 ; } r = sf_command (h->s, SFC_SET_CHANNEL_MAP_INFO, cm, (int) sizeof (int) * h->ch) ; *e = EXP_FAIL_Q ; snprintf (w, 100, "SFC_SET_CHANNEL_MAP_INFO with an out-of-range position returned %d", r) ; return r == SF_FALSE ; }
 
+/* valid metadata set-commands: accepted before the first audio data, refused (SF_FALSE, nothing changes) afterwards */
+static int c_inst_set (H *h, int *e, char *w) { static SF_INSTRUMENT in ; SF_VERIF_STATE st ; int r ; static int n ; if (h->mode == SFM_READ) { *e = EXP_NEUTRAL ; return 1 ; } vh_state (h->s, &st) ;
+	memset (&in, 0, sizeof (in)) ; in.basenote = 47 ; (void) n ; in.key_hi = in.velocity_hi = 127 ; in.loop_count = 1 ; in.loops [0].mode = SF_LOOP_FORWARD ; in.loops [0].end = 5 ;
+	r = sf_command (h->s, SFC_SET_INSTRUMENT, &in, sizeof (in)) ;
+	if (st.have_written || st.frames > 0) { *e = EXP_FAIL_Q ; snprintf (w, 100, "SFC_SET_INSTRUMENT after audio data returned %d", r) ; return r == SF_FALSE ; }
+	*e = EXP_OK ; snprintf (w, 100, "SFC_SET_INSTRUMENT before any audio returned %d", r) ; return r == SF_TRUE ; }
+static int c_cue_set (H *h, int *e, char *w) { static SF_CUES cu ; SF_VERIF_STATE st ; int r ; static int n ; if (h->mode == SFM_READ) { *e = EXP_NEUTRAL ; return 1 ; } vh_state (h->s, &st) ;
+	memset (&cu, 0, sizeof (cu)) ; cu.cue_count = 2 ; cu.cue_points [0].indx = 1 ; cu.cue_points [0].sample_offset = 3 ; (void) n ; cu.cue_points [1].indx = 2 ; cu.cue_points [1].sample_offset = 20 ;
+	r = sf_command (h->s, SFC_SET_CUE, &cu, sizeof (cu)) ;
+	if (st.have_written || st.frames > 0) { *e = EXP_FAIL_Q ; snprintf (w, 100, "SFC_SET_CUE after audio data returned %d", r) ; return r == SF_FALSE ; }
+	*e = EXP_OK ; snprintf (w, 100, "SFC_SET_CUE before any audio returned %d", r) ; return r == SF_TRUE ; }
+/* raw I/O: the byte count must be a whole number of frames (channels x bytes per sample; channels for the block codecs) */
+static int raw_unit (H *h) { int b = vh_sample_granular (h->format) ? vh_bits (h->format) / 8 : 0 ; return h->ch * (b > 0 ? b : 1) ; }
+static int c_write_raw_mis (H *h, int *e, char *w) { static unsigned char rb [256] ; sf_count_t r ; int u = raw_unit (h) ; if (u < 2) { *e = EXP_NEUTRAL ; return 1 ; } r = sf_write_raw (h->s, rb, u + 1) ; *e = EXP_FAIL ; snprintf (w, 100, "sf_write_raw with %d bytes (frame = %d bytes) returned %ld", u + 1, u, (long) r) ; return r == 0 ; }
+static int c_read_raw_mis (H *h, int *e, char *w) { static unsigned char rb [256] ; sf_count_t r ; int u = raw_unit (h) ; if (u < 2) { *e = EXP_NEUTRAL ; return 1 ; } r = sf_read_raw (h->s, rb, u + 1) ; *e = EXP_FAIL ; snprintf (w, 100, "sf_read_raw with %d bytes (frame = %d bytes) returned %ld", u + 1, u, (long) r) ; return r == 0 ; }
+
 static CALL calls [] = {
 	{ "readf_short(3)", c_read_ok }, { "read_double(2ch)", c_read_items_ok }, { "writef_short(2)", c_write_ok }, { "write_float(ch)", c_write_float_ok },
 	{ "read_int(ch+1)", c_read_misaligned }, { "write_short(ch+1)", c_write_misaligned }, { "read_short(ch+1)", c_read_mis_short }, { "read_float(ch+1)", c_read_mis_float }, { "read_double(ch+1)", c_read_mis_double },
@@ -111,7 +127,7 @@ static CALL calls [] = {
 	{ "set_string(type 9999)", c_setstr_bad }, { "set_string(NULL)", c_setstr_null }, { "set_string(read-only)", c_setstr_readonly }, { "set_chunk(read-only)", c_setchunk_readonly },
 	{ "set_chunk(NULL)", c_setchunk_null }, { "get_string", c_getstr }, { "TRUNCATE(-3)", c_truncate_bad },
 	{ "SET_BROADCAST_INFO(size 10)", c_bext_small }, { "SET_BROADCAST_INFO(history size)", c_bext_hist }, { "SET_CART_INFO(size 10)", c_cart_small }, { "SET_INSTRUMENT(size-1)", c_inst_size },
-	{ "SET_CUE(size 2)", c_cue_size }, { "SET_CHANNEL_MAP_INFO(ch+1)", c_chmap_size }, { "SET_CHANNEL_MAP_INFO(bad position)", c_chmap_value },
+	{ "SET_CUE(size 2)", c_cue_size }, { "SET_INSTRUMENT(valid)", c_inst_set }, { "SET_CUE(valid)", c_cue_set }, { "write_raw(frame+1 bytes)", c_write_raw_mis }, { "read_raw(frame+1 bytes)", c_read_raw_mis }, { "SET_CHANNEL_MAP_INFO(ch+1)", c_chmap_size }, { "SET_CHANNEL_MAP_INFO(bad position)", c_chmap_value },
 } ;
 #define NCALLS ((int) (sizeof (calls) / sizeof (calls [0])))
 
